@@ -356,6 +356,137 @@ def compare(work, entries, shard=120):
     return sorted(mism), hyps
 
 
+# ------------------------------------------------------------------ scoping model (coq/Scope.v, coq/ScopeExec.v; property C03)
+
+DECL_RE = re.compile(r"^([A-Za-z_ɪʇ0-9]+(?:,[A-Za-z_ɪʇ0-9]+)*):=")
+VAR_RE = re.compile(r"^var([A-Za-z_][A-Za-z_0-9]*?)(?:int|rune|any|string|bool)$")
+
+
+def atom_lhs(text):
+    """Names on the left of ':=' (or declared by 'var x T') in the normalised text of a simple statement."""
+    m = DECL_RE.match(text)
+    if m:
+        return [n for n in m.group(1).split(",") if n != "_"]
+    m = VAR_RE.match(text)
+    if m:
+        return [m.group(1)]
+    return []
+
+
+TOKEN_RE = re.compile(r"[A-Za-z_ɪʇ][A-Za-z_0-9ɪʇ]*")
+
+
+def scope_tables(src, out_sexp, ids):
+    """Tables for coq/ScopeExec.v from an abstract source body:
+    names    {atom id: [name ids it declares]}  (left-hand side of ':=' / 'var x T')
+    uses     {occurrence id: [name ids it mentions]}  (right-hand side of a declaring atom, the whole text otherwise; only names
+             that some atom of the program declares are of interest)
+    re_pairs [(redeclaring atom id, id of the atom whose declaration it re-uses)]: 'x, n := …' re-uses x when x was declared
+             earlier in the same block (Go spec, short variable declarations)."""
+    names, re_pairs = {}, []
+    nid = {}
+
+    def name_id(n):
+        return nid.setdefault(n, len(nid))
+
+    def block(ss):
+        here = {}          # name -> id of the atom that declared it in this block
+        for s in ss:
+            stmt(s, here)
+
+    def simple(s, here):
+        if s is None or s["s"] != "atom":
+            return
+        lhs = atom_lhs(s["t"])
+        if not lhs:
+            return
+        a = ids(s["t"])
+        names.setdefault(a, [])
+        for n in lhs:
+            if n in here:
+                re_pairs.append((a, here[n]))
+            else:
+                here[n] = a
+            if name_id(n) not in names[a]:
+                names[a].append(name_id(n))
+
+    def stmt(s, here):
+        k = s["s"]
+        if k == "atom":
+            simple(s, here)
+        elif k == "block":
+            block(s["b"])
+        elif k == "if":
+            simple(s.get("init"), {})
+            block(s["then"])
+            e = s.get("else")
+            if e is not None:
+                if "b" in e:
+                    block(e["b"])
+                else:
+                    stmt(e["if"], {})
+        elif k == "switch":
+            simple(s.get("init"), {})
+            for c in s["cases"]:
+                block(c["b"])
+        elif k == "for":
+            simple(s.get("init"), {})
+            block(s["b"])
+            simple(s.get("post"), {})
+    block(src)
+    uses = {}
+    for text, i in ids.d.items():
+        body = text
+        m = DECL_RE.match(text)
+        if m:
+            body = text[m.end():]
+        toks = [nid[t] for t in dict.fromkeys(TOKEN_RE.findall(body)) if t in nid]
+        if toks:
+            uses[i] = toks
+    return names, uses, re_pairs
+
+
+def scope_file(entries):
+    lines = ["From Coq Require Import List.", "From Verif Require Import Syntax Rewrite Scope ScopeExec.", "Import ListNotations.",
+             "Definition cases : list xcase := ["]
+    rows = []
+    tab = lambda d: cq_list("(%d, %s)" % (k, cq_list(str(x) for x in v)) for k, v in sorted(d.items()))
+    for name, src, exp in entries:
+        ids = Ids()
+        s = cq_stmts(src, ids)
+        out = "None" if exp[0] != "tree" else "(Some %s)" % cq_sexp(exp[1], ids)
+        names, uses, pairs = scope_tables(src, exp[1] if exp[0] == "tree" else None, ids)
+        rows.append("  {| x_src := %s; x_out := %s; x_names := %s; x_uses := %s; x_re := %s |}"
+                    % (s, out, tab(names), tab(uses), cq_list("(%d, %d)" % p for p in pairs)))
+    lines.append(";\n".join(rows))
+    lines += ["].", "Definition X := Eval vm_compute in xcodes cases.", "Print X."]
+    return "\n".join(lines) + "\n"
+
+
+def _xshard(args):
+    work, name, entries = args
+    rc, out = C.coq_eval(work, name, scope_file(entries))
+    if rc != 0:
+        raise RuntimeError("coqc failed on scope cases: " + out[-3000:])
+    m = re.search(r"X\s*=\s*(\[.*?\])\s*:\s*list", out, re.S)
+    codes = [int(x) for x in re.findall(r"\d+", m.group(1))]
+    if len(codes) != len(entries):
+        raise RuntimeError("scope evaluation returned %d codes for %d cases" % (len(codes), len(entries)))
+    return codes
+
+
+def scope_compare(work, entries, shard=120):
+    """check_xcase (coq/ScopeExec.v) of every entry: units 1 = every name mentioned in the real output resolves to the declaring
+    statement it resolves to in the source, 2 = some name does not; +10 inside the theorem C03_static_scoping_partial; +100 a partial
+    redeclaration has been separated from the declaration it re-uses (finding F24); +1000 the scope lists themselves differ."""
+    jobs = [(work, "xcases_%d" % (i // shard), entries[i:i + shard]) for i in range(0, len(entries), shard)]
+    codes = []
+    with ThreadPoolExecutor(max_workers=12) as ex:
+        for r in ex.map(_xshard, jobs):
+            codes.extend(r)
+    return codes
+
+
 # ------------------------------------------------------------------ behavioural correspondence (coq/CExec.v)
 
 BEH = {"atom", "panic", "yield", "block", "if", "switch", "for", "break", "continue", "return"}
